@@ -21,17 +21,21 @@
                                program of the right length evaluating to it)
      fits_slice r              the program has fewer than 2^63 - 1 operations (Go's bound on slice lengths)
 
-   PARTIAL with respect to the property text (C14_full below):
-     - fmt -b is not modelled (acc.Build on operands that carry identifiers is outside model/Build.v);
-     - gen acceptance (n >= 2) is proved for the gen model of C06, which by a convention of that model answers
-       "toolarge" for a script containing a shift above 4096: the theorem carries script_huge t = false;
+   fmt -b                       `addchain fmt -b`: Cli.fmt_out true (model/Cli.v, C15): parse, Translate, acc.Build on
+                               the translated program (build_named: operands carry identifiers), print
+   gen_clause n o, fmtb_clause n o   (proofs/SearchAll.v) gen with every builtin template accepts the printed
+                               script when n >= 2 and refuses it with a diagnostic when n = 1; fmt -b accepts
+                               it and its output loads to a genuine chain ending in n
+
+   C14_full (below) is the whole property over the models and is PROVED (C14_full_proved).  The names of the
+   top-level theorems keep `_partial` because two things remain outside any Gallina statement:
      - costs are exact rationals: float64 rounding for weights that are not small dyadic numbers is not
-       modelled;
+       modelled (the check uses dyadic weights only, for which float64 arithmetic is exact);
      - "byte-identical across runs" is, for a Gallina function, the statement that the output is a function
        of (expr, weights, sort order): C14_p_irrelevant, C14_schedule_irrelevant (C12) say that -p and the
        interleaving do not enter; that Go's unstable sort.Slice is deterministic is an assumption about the
-       Go library (the harness oracle compares runs).
-   These are covered by the oracle of the correspondence check on the real binary. *)
+       Go library (the theorems hold for every sort order; the harness oracle compares runs).
+   Both are covered by the oracle of the correspondence check on the real binary. *)
 From Coq Require Import String.
 From Coq Require Import List NArith ZArith Bool QArith.
 From AV Require Import model.Par proofs.ParProofs.
@@ -39,7 +43,8 @@ From AV Require Import model.Proto model.Bits model.Chain model.Program model.As
   model.Build model.Calc model.Gen model.Ensemble model.Search model.SearchEns.
 From AV Require Import proofs.BuildProofs proofs.CalcSpec proofs.CalcProofs.
 From AV Require Import model.AstProto.
-From AV Require Import proofs.SearchProofs proofs.SearchBridge proofs.SearchMain proofs.SearchEnsProofs proofs.SearchGen proofs.SearchAll.
+From AV Require model.Cli.
+From AV Require Import proofs.SearchProofs proofs.SearchBridge proofs.SearchMain proofs.SearchEnsProofs proofs.SearchGen proofs.SearchFmtB proofs.SearchAll.
 Import ListNotations.
 Open Scope Z_scope.
 
@@ -84,12 +89,12 @@ Theorem C14_results_consistent : forall w n rs,
 Proof. exact search_results_consistent. Qed.
 Print Assumptions C14_results_consistent.
 
-Theorem C14_search_consistent_partial : forall ens : Z -> outcome (list ares),
+Theorem C14_search_consistent : forall ens : Z -> outcome (list ares),
   (forall n, 1 <= n -> exists rs, ens n = Ok rs /\ rs <> [] /\ Forall (good_ares n) rs /\ Forall fits_slice rs) ->
   forall expr p w n, eval expr = Ok n -> 1 <= n -> 1 <= p ->
   exists rs o, ens n = Ok rs /\ search_m ens expr p w = Ok o /\ consistent_report w n rs o.
 Proof. exact search_consistent. Qed.
-Print Assumptions C14_search_consistent_partial.
+Print Assumptions C14_search_consistent.
 
 (* ---- the property over the ensemble model, C01's theorem plugged in: every expression of value
    n >= 1, every -p >= 1, every weights (positive or not), every sort order.  The only alternative to a
@@ -99,7 +104,7 @@ Theorem C14_search_ensemble_partial : forall orcs expr p w n,
   eval expr = Ok n -> 1 <= n -> Z.of_N (bitlen n) < 2 ^ 64 -> 1 <= p ->
   (forall rs, ens_model orcs n = Ok rs -> Forall fits_slice rs) ->
   (exists rs o, ens_model orcs n = Ok rs /\ search_full orcs expr p w = Ok o /\
-                consistent_report w n rs o /\ gen_clause n o) \/
+                consistent_report w n rs o /\ gen_clause n o /\ fmtb_clause n o) \/
   (search_full orcs expr p w = Err ($"alg") /\ exists j, orcs j <> None).
 Proof. exact search_full_all. Qed.
 Print Assumptions C14_search_ensemble_partial.
@@ -108,7 +113,7 @@ Theorem C14_search_stable_partial : forall expr p w n,
   eval expr = Ok n -> 1 <= n -> Z.of_N (bitlen n) < 2 ^ 64 -> 1 <= p ->
   (forall rs, ens_model (fun _ => None) n = Ok rs -> Forall fits_slice rs) ->
   exists rs o, ens_model (fun _ => None) n = Ok rs /\ search_full (fun _ => None) expr p w = Ok o /\
-               consistent_report w n rs o /\ gen_clause n o.
+               consistent_report w n rs o /\ gen_clause n o /\ fmtb_clause n o.
 Proof.
   intros expr p w n He Hn Hb Hp Hfit.
   destruct (search_full_all (fun _ => None) expr p w n He Hn Hb Hp Hfit) as [H|[_ (j & Hj)]]; [exact H|].
@@ -122,7 +127,7 @@ Theorem C14_search_standard_expression_partial : forall s ts p w n,
   renders false s ts -> E ts n -> 1 <= n -> Z.of_N (bitlen n) < 2 ^ 64 -> 1 <= p ->
   (forall rs, ens_model (fun _ => None) n = Ok rs -> Forall fits_slice rs) ->
   exists rs o, ens_model (fun _ => None) n = Ok rs /\ search_full (fun _ => None) s p w = Ok o /\
-               consistent_report w n rs o /\ gen_clause n o.
+               consistent_report w n rs o /\ gen_clause n o /\ fmtb_clause n o.
 Proof.
   intros s ts p w n Hr He. exact (C14_search_stable_partial s p w n (eval_complete_std s ts n Hr He)).
 Qed.
@@ -153,13 +158,21 @@ Proof. exact gen_one. Qed.
 Print Assumptions C14_gen_refuses_one.
 
 (* ---- gen accepts the report of every valid non-empty program, with every builtin template (C04's
-   no-dangling theorem, C05's allocator theorem, C06's gen model; script_huge: see the header) ---- *)
+   no-dangling theorem, C05's allocator theorem, C06's gen model) ---- *)
 Theorem C14_gen_accepts : forall p c tmpl text,
   evaluate p = Ok c -> NoDup c -> p <> [] -> Z.of_nat (length p) + 1 < 2 ^ 63 ->
   In tmpl builtin_templates -> report p = Ok text ->
-  exists t, parse text = Ok t /\ (script_huge t = false -> exists out, gen default_cfg tmpl text = Ok out).
+  exists out, gen default_cfg tmpl text = Ok out.
 Proof. exact report_gen. Qed.
 Print Assumptions C14_gen_accepts.
+
+(* ---- fmt -b accepts the report of every valid program and prints a script of the same chain (C15's
+   build_named; the builder invariant of C04 re-used on the translated program) ---- *)
+Theorem C14_fmtb_accepts : forall p c text,
+  evaluate p = Ok c -> NoDup c -> Z.of_nat (length p) + 1 < 2 ^ 63 -> report p = Ok text ->
+  exists out ir', Cli.fmt_out true text = Ok out /\ load_m out = Ok (ir', map cop p, c).
+Proof. exact report_fmtb. Qed.
+Print Assumptions C14_fmtb_accepts.
 
 (* ---- reproducibility: neither -p nor the schedule enters the result ---- *)
 Theorem C14_p_irrelevant : forall ens expr p p' w, 1 <= p -> 1 <= p' ->
@@ -175,17 +188,34 @@ Theorem C14_schedule_irrelevant : forall (rs : list ares) (d : ares) limit s,
 Proof. exact search_schedule_irrelevant. Qed.
 Print Assumptions C14_schedule_irrelevant.
 
-(* ---- the full statement of the property over the models, for the record (NOT proved: see the header).
-   fmtb is `addchain fmt -b`, which has no model; gen without the script_huge exclusion. ---- *)
-Definition C14_full (fmtb : list N -> outcome (list N)) : Prop :=
+(* ---- the full statement of the property over the models: every clause of the property text, for every
+   expression of value n >= 1, every -p >= 1, every weights, every sort order ---- *)
+Definition C14_full : Prop :=
   forall orcs expr p w n,
   eval expr = Ok n -> 1 <= n -> Z.of_N (bitlen n) < 2 ^ 64 -> 1 <= p -> pos_weights w ->
   (forall rs, ens_model orcs n = Ok rs -> Forall fits_slice rs) ->
   (exists rs o, ens_model orcs n = Ok rs /\ search_full orcs expr p w = Ok o /\ consistent_report w n rs o /\
-     (exists out, fmtb (so_stdout o) = Ok out /\ exists ir ops c, load_m out = Ok (ir, ops, c) /\ last c 0 = n) /\
+     (* fmt -b accepts, and prints a script of a chain ending in n *)
+     (exists out ir ops c, Cli.fmt_out true (so_stdout o) = Ok out /\ load_m out = Ok (ir, ops, c) /\
+                           last c 0 = n /\ is_chain c) /\
+     (* gen accepts iff there is at least one operation *)
      (2 <= n -> exists out, gen default_cfg ($"listing") (so_stdout o) = Ok out) /\
-     (n = 1 -> exists cls, gen default_cfg ($"listing") (so_stdout o) = Err cls)) \/
+     (n = 1 -> exists cls, gen default_cfg ($"listing") (so_stdout o) = Err cls) /\
+     (* -p does not enter *)
+     (forall p', 1 <= p' -> search_full orcs expr p' w = Ok o)) \/
   (search_full orcs expr p w = Err ($"alg") /\ exists j, orcs j <> None).
+
+Theorem C14_full_proved : C14_full.
+Proof.
+  intros orcs expr p w n He Hn Hb Hp _ Hfit.
+  destruct (search_full_all orcs expr p w n He Hn Hb Hp Hfit) as [(rs & o & Er & Es & Hc & Hg & Hf)|H]; [left|right; exact H].
+  exists rs, o. split; [exact Er|]. split; [exact Es|]. split; [exact Hc|]. split; [exact Hf|].
+  assert (Hl : In ($"listing") builtin_templates) by (left; reflexivity).
+  split; [exact (proj1 (Hg _ Hl))|]. split.
+  - intros H1. eexists. exact (proj2 (Hg _ Hl) H1).
+  - intros p' Hp'. unfold search_full in *. rewrite (search_p_irrelevant _ expr p' p w Hp' Hp). exact Es.
+Qed.
+Print Assumptions C14_full_proved.
 
 (* ---- non-vacuity ---- *)
 Definition ex_w : weights := mkW (5 # 4) (1 # 2).   (* -add 1.25 -double 0.5 *)
@@ -244,6 +274,12 @@ shift	t0	t0	2
 add	z	x	t0
 ".
 Proof. eexists _, _. split; [vm_compute; reflexivity|]. split; [vm_compute; reflexivity|reflexivity]. Qed.
+
+(* fmt -b on that script: here a fixed point *)
+Example C14_fmtb_example :
+  exists o, search_full (fun _ => None) ($"2^5-3") 4 ex_w = Ok o /\
+    Cli.fmt_out true (so_stdout o) = Ok (so_stdout o).
+Proof. eexists. split; [vm_compute; reflexivity|vm_compute; reflexivity]. Qed.
 
 (* failing invocations *)
 Example C14_failures :
